@@ -90,6 +90,21 @@ def run(ctx):
           "unconverted leaves a field in the namespace it came from, so a set rebuilt from its own dictionary holds arrays of two libraries and a partition of it no longer concatenates")
     shape_rule(ctx, repo)
     weights_guard_rule(ctx, repo)
+    # ---- the flat dictionary layout puts parameter columns and fields into one key space: a parameter named like a field (a run with a parameter called `beta`)
+    #      overwrites that field, and from_dict() -- which takes the parameter columns out by name -- hands the constructor a set without it.  Accepted: a test
+    #      of the two key sets against each other (raise / rename) before they are merged.
+    B_ = repo.cls("aspire.samples:BaseSamples")
+    td = B_.resolve("to_dict")
+    if td is None:
+        ctx.unknown("C16.dict", B_.ident, "src/aspire/samples.py", "to_dict not found", disc="flat-keys")
+    else:
+        merges = [n_ for n_ in walk_no_nested(td.node) if isinstance(n_, ast.Call) and isinstance(n_.func, ast.Attribute) and n_.func.attr == "update" and n_.args]
+        guarded = any(isinstance(n_, ast.If) and any(isinstance(x_, ast.Raise) for x_ in ast.walk(n_)) and any(
+            isinstance(x_, ast.Attribute) and x_.attr == "parameters" for x_ in ast.walk(n_.test)) for n_ in walk_no_nested(td.node))
+        ctx.decide(not merges or guarded, "C16.dict", td.ident, loc_of(td, merges[0] if merges else None), "the flat layout cannot lose a field to a parameter of the same name",
+                   f"`{ast.unparse(merges[0])[:40]}` merges the parameter columns into the dictionary of fields without comparing the two key sets: a parameter named like a field "
+                   "(SMCSamples with a parameter called `beta`) replaces that field, and from_dict(to_dict(s)) -- the default, flat layout -- returns a set whose temperature is None"
+                   if merges else "", disc="flat-keys")
     rbs = rebuilds(repo)
     ctx.count("rebuild_methods_folded", len(rbs))
     n_get = n_cat = 0
@@ -435,6 +450,7 @@ MUTANTS += [
     M("constructor skips the weights for fewer than two samples", _S, "for x in [self.log_likelihood, self.log_prior, self.log_q]\n        ):\n            self.compute_weights()", "for x in [self.log_likelihood, self.log_prior, self.log_q]\n        ) and len(self.x) > 1:\n            self.compute_weights()", "C16.shape"),
 ]
 NEUTRALS = [
+    M("flat layout refuses parameter names that clash with field names (repairs the flat-keys finding)", "src/aspire/samples.py", "samples = dict(zip(self.parameters, self.x.T, strict=True))\n        if flat:", "samples = dict(zip(self.parameters, self.x.T, strict=True))\n        if flat and set(self.parameters) & set(out):\n            raise ValueError(\"parameter names clash with field names\")\n        if flat:"),
     M("from_dict stacks columns in mapping order (insertion order is kept in memory)", _S, "x = np.stack([samples[p] for p in parameters], axis=-1)", "x = np.stack(list(samples.values()), axis=-1)"),
     M("concatenate through an all-or-none helper", _S, "log_q=xp.concatenate([s.log_q for s in samples], axis=0)\n            if all(s.log_q is not None for s in samples)\n            else None,",
       "log_q=_stack(\"log_q\"),", more=[("xp = samples[0].xp\n        return cls(", "xp = samples[0].xp\n\n        def _stack(name):\n            values = [getattr(s, name) for s in samples]\n            if any(v is None for v in values):\n                return None\n            return xp.concatenate(values, axis=0)\n\n        return cls(")]),
